@@ -5,3 +5,6 @@ package verifhook
 
 // Tick does nothing without build tag verif
 func Tick(string) {}
+
+// Observe does nothing without build tag verif
+func Observe(string, [][2]float64, [][2]float64) {}
